@@ -22,13 +22,16 @@ of the default build: run `lake build SuxModel.Props.C11 SuxModel.Space.EFReal` 
 #print axioms Sux.Space.c11_ef_empty
 #print axioms Sux.Space.c11_vfunc_shard_cells
 #print axioms Sux.Space.c11_vfunc_cells_all
+#print axioms Sux.Space.c11_vfunc_123_all
 #print axioms Sux.Space.c11_vfunc_cells
 #print axioms Sux.Space.c11_vfunc_123_small
 #print axioms Sux.Space.c11_vfunc_large
 #print axioms Sux.Space.c11_vfunc_1135_balanced
 #print axioms Sux.Space.c11_vfunc_noshards_113
 #print axioms Sux.Space.c11_vfunc_bits
-#print axioms Sux.Space.c11_design_constant_fails_tiny
+#print axioms Sux.Space.c11_vfunc_min_graph
+#print axioms Sux.Space.c11_mwhc_cells
+#print axioms Sux.Space.c11_mwhc_exceeds_1135
 #print axioms Sux.Space.c11_noshards_exceeds_1135
 #print axioms Sux.Space.ef_bits_le
 #print axioms Sux.Space.ef_words_le
